@@ -11,6 +11,7 @@ import (
 	"fmt"
 	"reflect"
 	"strings"
+	"time"
 
 	"github.com/vimeo/dials"
 
@@ -661,10 +662,27 @@ func (w *world) execAct(l *label) {
 	w.afterRet(t)
 }
 
+// waitOffering returns once the goroutine of an offering call is positively
+// seen waiting in the library's select on watcherChan, so that the monitor's
+// receive cannot find the channel without a sender.
+func (w *world) waitOffering(t *thread) {
+	deadline := time.Now().Add(w.r.hardStop)
+	for {
+		if _, ok := w.r.blockedInLibrary(t.tid); ok {
+			return
+		}
+		if time.Now().After(deadline) {
+			panic(harnessError(fmt.Sprintf("offering call %d never reached its select\n%s", t.tid, allStacks())))
+		}
+		time.Sleep(200 * time.Microsecond)
+	}
+}
+
 func (w *world) execRecv(l label) {
 	var t *thread
 	if l.Src == "offer" {
 		t = w.threads[l.Tid]
+		w.waitOffering(t)
 	}
 	w.r.release(whoMon)
 	w.noteMon(w.r.await(whoMon))
